@@ -12,6 +12,7 @@ pub mod c09;
 pub mod c10;
 pub mod c11;
 pub mod c12;
+pub mod c13;
 pub mod c14;
 pub mod c15;
 pub mod c16;
@@ -68,6 +69,7 @@ pub fn dispatch(run: &mut Run) -> bool {
         "C10" => c10::run(run),
         "C11" => c11::run(run),
         "C12" => c12::run(run),
+        "C13" => c13::run(run),
         "C14" => c14::run(run),
         "C15" => c15::run(run),
         "C16" => c16::run(run),
